@@ -65,6 +65,12 @@ def run_check(pid, tier, seed, replay=None):
         if replay:
             mod.replay(res, json.load(open(replay)))
         else:
+            # corpus first: stored replays of listed findings (known ones must still be attributed, fixed ones must pass)
+            for k in known:
+                rp = k.get("replay")
+                if rp and os.path.exists(os.path.join(common.VERIF, rp)) and rp.endswith(".json"):
+                    mod.replay(res, json.load(open(os.path.join(common.VERIF, rp))))
+                    res.count("corpus-replays")
             mod.run(res, tier, seed)
     except Exception:
         res.fail("correspondence", "harness crashed: " + traceback.format_exc()[-1500:],
